@@ -977,3 +977,279 @@ def native_session_search(v):
                     keys, json.dumps(ev), json.dumps(st, ensure_ascii=False), empty, x.get("ongoing"), clause)
                 return sc, rr[i:i + 2], what
     return None
+
+
+# ------------------------------------------------------------------------- C14 (old kar order == Unicode order)
+
+HAS = (CL.HASANTA,)
+ROFOLA = (CL.HASANTA, CL.B_R)
+CHANDRA_KEY = (CL.CHANDRA,)
+
+
+def kar_templates(two_syllables=False, thorough=False):
+    """Words as (name, typewriter key values, unicode key values); ('C', i) / ('P', i) / ('V', i) are symbols
+    constrained to the consonant / asserted-punctuation / independent-vowel class."""
+    clusters = [
+        ("C", [[("C", 0)]]),
+        ("C-h-C", [[("C", 0)], list(HAS), [("C", 1)]]),
+        ("C-rofola", [[("C", 0)], list(ROFOLA)]),
+        ("C-zofola", [[("C", 0)], list(ZOFOLA)]),
+        ("C-h-C-rofola", [[("C", 0)], list(HAS), [("C", 1)], list(ROFOLA)]),
+        ("C-h-C-h-C", [[("C", 0)], list(HAS), [("C", 1)], list(HAS), [("C", 2)]]),
+    ]
+    signs = [("none", [], [], [])]
+    for k in (0x09BE, 0x09C0, 0x09C1, 0x09C2, 0x09C3):
+        signs.append(("U+%04X" % k, [], [[k]], [[k]]))
+    for k in CL.LEFT_KARS:
+        signs.append(("U+%04X" % k, [[k]], [], [[k]]))
+    signs.append(("o-kar", [[CL.E_KAR]], [[CL.AA_KAR]], [[CL.O_KAR]]))
+    signs.append(("ou-kar", [[CL.E_KAR]], [[CL.OU_KAR]], [[CL.OU_KAR]]))
+    signs.append(("ou-kar(length mark)", [[CL.E_KAR]], [[CL.AU_LENGTH_MARK]], [[CL.OU_KAR]]))
+    syllables = []
+    for cn, ckeys in clusters:
+        for sn, pre, post, uni in signs:
+            for ch in (False, True):
+                tw = pre + ckeys + post + ([list(CHANDRA_KEY)] if ch else [])
+                un = ckeys + uni + ([list(CHANDRA_KEY)] if ch else [])
+                syllables.append(("%s+%s%s" % (cn, sn, "+chandra" if ch else ""), tw, un))
+    prefixes = [("start", [], []), ("after-punct", [[("P", 0)]], [[("P", 0)]]), ("after-vowel", [[("V", 0)]], [[("V", 0)]])]
+    words = []
+    for pn, ptw, pun in prefixes:
+        for name, tw, un in syllables:
+            words.append((pn + ":" + name, ptw + tw, pun + un))
+    if two_syllables:
+        def shift(keys, d):
+            return [[(x[0], x[1] + d) if isinstance(x, tuple) else x for x in k] for k in keys]
+        firsts = [s for s in syllables if s[0].split("+")[0] in ("C", "C-h-C", "C-zofola")] if not thorough else syllables
+        seconds = syllables
+        for a in firsts:
+            for b in seconds:
+                if not thorough and ("chandra" in a[0] and "chandra" in b[0]):
+                    continue
+                words.append(("2syl:" + a[0] + " | " + b[0], a[1] + shift(b[1], 3), a[2] + shift(b[2], 3)))
+    return words
+
+
+def make_kar_history(shape, prop_fn=None, constrain=None):
+    name, tw, un = shape["word"]
+
+    def build(st, it):
+        prog = it.p
+        syms = {}
+
+        def val(keys):
+            out = []
+            for k in keys:
+                v = []
+                for x in k:
+                    if isinstance(x, tuple):
+                        if x not in syms:
+                            c = st.sym_char("%s%d" % (x[0].lower(), x[1]), 0x20, 0x9FF)
+                            cls = {"C": CL.CONSONANTS, "P": CL.PUNCT_ASSERTED, "V": [v for v in CL.VOWELS if v not in CL.RARE]}[x[0]]
+                            st.assume(zin(c, cls))
+                            syms[x] = c
+                        v.append(syms[x])
+                    else:
+                        v.append(x)
+                out.append(v)
+            return out
+        twv, unv = val(tw), val(un)
+        fixed_common = {"fixed_suggestion": False, "ansi": False, "fixed_numpad": False, "include_english": False,
+                        "phonetic_suggestion": False, "smart_quote": False}
+        cfgA, opts = mk_config(prog, st, dict(fixed_common, fixed_kar_order=True))
+        fixedB = dict(fixed_common, fixed_kar_order=False)
+        for o in ("fixed_vowel", "fixed_chandra", "fixed_kar", "fixed_old_reph"):
+            fixedB[o] = opts[o]
+        cfgB, _ = mk_config(prog, st, fixedB)
+        fmA = mk_fixed(prog, [], [], None, [], [(key_name("Key_a_Normal"), [0x20])])
+        fmB = mk_fixed(prog, [], [], None, [], [(key_name("Key_a_Normal"), [0x20])])
+        st.ctx = dict(opts=opts, fmA=fmA, fmB=fmB, tw=twv, un=unv, syms=syms, shape=shape, trail=[])
+        fn = prog.find_trait_fn("FixedMethod", "Method", "get_suggestion")
+        fo = prog.find_trait_fn("FixedMethod", "Method", "ongoing_input_session")
+        fb = prog.find_trait_fn("FixedMethod", "Method", "backspace_event")
+        data = Ref([Opaque("Data")], 0)
+
+        def press(fm, cfg, v):
+            lay = fm_field(prog, fm, "layout").fields[0]
+            lay.entries[0][1] = SString(v)
+            ret = it.call_function(fn, [Ref([fm], 0, True), VC_A, 0, 0, data, Ref([cfg], 0)])
+            ong = it.call_function(fo, [Ref([fm], 0)])
+            return ret, ong
+
+        def run():
+            trail = st.ctx["trail"]
+            for v in twv:
+                before = list(fm_field(prog, fmA, "buffer").elems)
+                ret, ong = press(fmA, cfgA, v)
+                pend = fm_field(prog, fmA, "pending_kar")
+                txt = ret.fields[prog.enum_fields[("Suggestion", "Single")].index("suggestion")].elems
+                captured = (len(v) == 1 and not is_sym(v[0]) and v[0] in CL.LEFT_KARS and pend.variant == 1)
+                trail.append(dict(pending=pend.variant == 1, ongoing=ong, shown=list(txt), before=before, captured=captured,
+                                  buffer=list(fm_field(prog, fmA, "buffer").elems)))
+            for v in unv:
+                press(fmB, cfgB, v)
+            # one backspace discards a waiting sign: replay the typewriter prefix that ends with a pending sign
+            return None
+        return run
+
+    def on_path(st, it, out):
+        prog = it.p
+        c = st.ctx
+        model = st.get_model()
+        recs = []
+
+        def keys_under(m, keys):
+            return [model_string(m, v) for v in keys]
+
+        def inputs(m):
+            return dict(word=name, typewriter=keys_under(m, c["tw"]), unicode=keys_under(m, c["un"]), opts=opts_json(m, c["opts"]))
+        if out[0] == "panic":
+            recs.append(dict(kind="violation", clause="no_panic", inputs=inputs(model), predicted=dict(panic=out[1].message)))
+            return recs
+        a = fm_field(prog, c["fmA"], "buffer").elems
+        b = fm_field(prog, c["fmB"], "buffer").elems
+        pa = fm_field(prog, c["fmA"], "pending_kar")
+        recs.append(dict(kind="witness", inputs=inputs(model),
+                         predicted=dict(a=model_string(model, a), b=model_string(model, b), pending_a=pa.variant == 1)))
+        clauses = [("same_text", seq_eq(a, b)), ("no_sign_left_pending", pa.variant == 0)]
+        for i, t in enumerate(c["trail"]):
+            if t["pending"]:
+                clauses.append(("pending_sign_not_shown", z3.And(seq_eq(t["shown"], t["buffer"]),
+                                                                 seq_eq(t["buffer"], t["before"]) if t["captured"] else z3.BoolVal(True))))
+                clauses.append(("pending_sign_counts_as_session", t["ongoing"] is True))
+                clauses.append(("cover:pending", True))
+        clauses.append(("cover:word_done", True))
+        for cname, formula in clauses:
+            if cname.startswith("cover:"):
+                recs.append(dict(kind="cover", name=cname))
+                continue
+            if formula is True:
+                continue
+            neg = z3.Not(formula) if formula is not False else z3.BoolVal(True)
+            st.solver.push()
+            st.solver.add(neg)
+            if st._check(None):
+                m2 = st.solver.model()
+                recs.append(dict(kind="violation", clause=cname, inputs=inputs(m2),
+                                 predicted=dict(a=model_string(m2, a), b=model_string(m2, b), pending_a=pa.variant == 1)))
+            st.solver.pop()
+        return recs
+    return build, on_path
+
+
+def kar_scenario(inp):
+    """Native replay: two contexts, typewriter order with the option on, Unicode order with it off."""
+    vals = []
+    for v in inp["typewriter"] + inp["unicode"]:
+        if v not in vals:
+            vals.append(v)
+    lay = {}
+    for i, v in enumerate(vals):
+        lay["Key_%s_Normal" % PLANT_NAMES[i]] = v
+    oa = dict(inp["opts"], kar_order=True)
+    ob = dict(inp["opts"], kar_order=False)
+    steps = [{"op": "new", "ctx": 0, "config": {"layout_json": lay, "opts": oa}},
+             {"op": "new", "ctx": 1, "config": {"layout_json": lay, "opts": ob}}]
+    for v in inp["typewriter"]:
+        steps.append({"op": "key", "ctx": 0, "key": PLANT_KEYS[vals.index(v)]})
+    steps.append({"op": "get_state", "ctx": 0})
+    for v in inp["unicode"]:
+        steps.append({"op": "key", "ctx": 1, "key": PLANT_KEYS[vals.index(v)]})
+    steps.append({"op": "get_state", "ctx": 1})
+    return {"steps": steps}
+
+
+def kar_compare(w, res):
+    rr = res["results"]
+    if any("panic" in x for x in rr):
+        if w["predicted"].get("panic") is not None:
+            return None
+        return "native run panics: %s" % [x["panic"] for x in rr if "panic" in x][0]
+    if w["predicted"].get("panic") is not None:
+        return "symbolic path panics, native run does not"
+    states = [x["state"] for x in rr if x.get("op") == "get_state"]
+    a, b = states[0], states[1]
+    if a["buffer"] != w["predicted"]["a"] or b["buffer"] != w["predicted"]["b"]:
+        return "native buffers %r / %r, symbolic %r / %r" % (a["buffer"], b["buffer"], w["predicted"]["a"], w["predicted"]["b"])
+    return None
+
+
+def confirm_kar(check, name, vio, classify, describe):
+    groups = {}
+    for v in vio:
+        groups.setdefault(classify(v), []).append(v)
+    status = "held"
+    worst = {"held": 0, "known": 1, "inconclusive": 2, "violated": 3}
+    for key, vs in sorted(groups.items()):
+        confirmed = None
+        for v in vs[:8]:
+            sc = kar_scenario(v["inputs"])
+            res = run_replay([sc])[0]
+            if kar_compare(v, res) is None:
+                confirmed = (v, sc, res)
+                break
+        if confirmed is None:
+            st = "inconclusive"
+            check.obligation(name + ":" + key, "mirsym", "inconclusive", "counterexample did not reproduce natively: %s" % describe(vs[0])[:300])
+        else:
+            v, sc, res = confirmed
+            check.stats["traces_validated"] += 1
+            st = check.finding(key, describe(v), dict(scenario=sc, observed=[x for x in res["results"] if x.get("op") == "get_state"],
+                                                     predicted=v["predicted"], inputs=v["inputs"]))
+            check.sample(dict(obligation=name, counterexample=v["inputs"], outcome=v["predicted"], role=key))
+        if worst[st] > worst[status]:
+            status = st
+    return status
+
+
+def classify_kar(v):
+    if v["predicted"].get("panic") is not None:
+        return "old kar order: panic"
+    tw = v["inputs"]["typewriter"]
+    has_zofola = "".join(chr(x) for x in ZOFOLA) in tw
+    has_r = "র" in tw
+    if v["clause"] == "same_text" and has_zofola and has_r:
+        return "old kar order: র + zo-fola under a left-standing sign"
+    return "old kar order: %s (%s)" % (v["clause"], v["inputs"]["word"].split(":")[0])
+
+
+def describe_kar(v):
+    i = v["inputs"]
+    if v["predicted"].get("panic") is not None:
+        return "typing %s in typewriter order panics: %s" % (i["typewriter"], v["predicted"]["panic"])
+    return "typewriter order %s with old kar order gives %r, Unicode order %s without it gives %r (clause %s, options %s)" % (
+        i["typewriter"], v["predicted"]["a"], i["unicode"], v["predicted"]["b"], v["clause"],
+        ",".join(k for k, x in i["opts"].items() if x))
+
+
+def obl_kar_order(check, two_syllables, thorough=False, budget_s=None):
+    words = kar_templates(two_syllables, thorough)
+    shapes = [dict(word=w) for w in words]
+    check.bounds["kar_order"] = dict(words=len(words), syllables="cluster of 1-3 consonants (hasanta / ro-fola / zo-fola keys) x 12 sign spellings x chandrabindu",
+                                     prefixes="word start, after punctuation, after an independent vowel" + ("; two-syllable words" if two_syllables else ""),
+                                     symbols="consonants, punctuation and independent vowels symbolic within their class",
+                                     options="auto vowel / auto chandrabindu / traditional joining / old reph symbolic (16 settings)")
+
+    def make(shape):
+        return make_kar_history(shape)
+    records, errors, summ = msym.run_shapes(check, "kar_order", shapes, make, budget_s=budget_s)
+    wit = [r for r in records if r["kind"] == "witness"]
+    vio = [r for r in records if r["kind"] == "violation"]
+    covers = set(r["name"] for r in records if r["kind"] == "cover")
+    okc, bad = validate_witnesses(check, "kar_order", wit, to_scenario=kar_scenario, compare=kar_compare, cap=3000)
+    detail = "%d words, %d paths, %d witnesses replayed natively (%d agree)" % (len(words), summ["paths"], min(len(wit), 3000), okc)
+    if errors:
+        check.obligation("kar_order", "mirsym", "inconclusive", "executor gave up: " + "; ".join(sorted(set(errors))[:3]))
+        return
+    if bad:
+        check.obligation("kar_order", "mirsym", "inconclusive", "executor model disagrees with the native build on %d witnesses, e.g. %s | %s" % (
+            len(bad), bad[0][1], json.dumps(bad[0][0]["inputs"], ensure_ascii=False)[:300]))
+        return
+    if "cover:pending" not in covers or "cover:word_done" not in covers:
+        check.obligation("kar_order", "mirsym", "inconclusive", "vacuity: no path had a pending sign / finished a word")
+        return
+    if not vio:
+        check.obligation("kar_order", "mirsym", "held", detail + "; every property query unsat")
+        return
+    status = confirm_kar(check, "kar_order", vio, classify_kar, describe_kar)
+    check.obligation("kar_order", "mirsym", status, detail + "; %d counterexample models" % len(vio))
